@@ -88,6 +88,8 @@ def explore(progs, wd, depth=4, max_paths=40, seed=7, fuel=20000, prelude=None, 
             new = cur[path]
             if any(r.get("res") in ("panic", "skipped") or "obs_panic" in r for r in new):
                 bad = True
+            if any("VERIF-FUEL" in e for r in new for e in ((r.get("obs") or {}).get("errors") or [])):
+                bad = True   # a runaway story: step counts, not behaviour, would be compared
             parent = ex.paths.get(path[:-1]) if path else None
             if path and parent is None:
                 continue
